@@ -554,7 +554,7 @@ class Sim:
             "invalid": rng.random() < 0.7,
             "p_probe": rng.choice([0.3, 0.6]),
             "flatten_every": rng.choice([0, 2, 3]),
-            "p_show": (0.05 if thorough else 0.0) if rng.random() < 0.7 else (0.15 if thorough else 0.04),
+            "p_show": (0.05 if thorough else 0.02) if rng.random() < 0.7 else (0.15 if thorough else 0.06),
             "p_alias": rng.choice([0.0, 0.1, 0.3]),
         }
 
@@ -593,6 +593,13 @@ class Sim:
                 leaf = tgt
             used.add(tgt)
             items.append([leaf, rng.choice(sm.VALID[sm.kind_of(leaf)])])
+        # the deprecated alias and its target, written in either order across steps
+        al = [x for x in leaves if sm.is_alias(x)]
+        if al and rng.random() < cfg["p_alias"]:
+            a = rng.choice(al)
+            pick = a if rng.random() < 0.5 else sm.alias_target(a)
+            if sm.alias_target(a) not in used:
+                items.append([pick, rng.choice(sm.VALID["posnum"])])
         return items
 
     def _invalid(self, rng, items, leaves):
